@@ -494,6 +494,25 @@ func (w *World) AwaitQuiet(maxWait time.Duration) bool {
 	return ok
 }
 
+// LoopStuck reports whether the event loop of a live torrent fails to answer
+// a status query within a simulated minute (it answers in microseconds
+// when it runs at all).  It is what "no quiescent point" must be told apart
+// from: events pile up in the queue of a loop that is blocked for ever.
+func (w *World) LoopStuck(t *tor.Torrent) bool {
+	if chClosed(t.Done) {
+		return false
+	}
+	answered := false
+	simrt.GoNamed("loop-probe", func() {
+		t.GetStats()
+		answered = true
+	})
+	for k := 0; k < 60 && !answered; k++ {
+		simrt.Sleep(time.Second)
+	}
+	return !answered && !chClosed(t.Done)
+}
+
 // StartQuiescer runs an actor that establishes quiescent points regularly.
 func (w *World) StartQuiescer(every time.Duration) {
 	simrt.GoNamed("quiescer", func() {
@@ -533,6 +552,18 @@ func drawSysLink(st *simrt.Stream) (simnet.LinkCfg, simnet.LinkCfg) {
 		c.Latency = time.Duration(simrt.Pick(st, 0, 1, 10, 80, 300)) * time.Millisecond
 		if st.Bool(1, 4) {
 			c.Jitter = time.Duration(1+st.Choice(30)) * time.Millisecond
+		}
+		if st.Bool(1, 6) {
+			// a narrow window: the writer blocks early, queues behind it
+			// fill; never so narrow for the latency that a block takes
+			// longer than the liveness bounds allow (>= 6 kB/s)
+			c.Window = simrt.Pick(st, 4096, 512, 16384, 64)
+			if c.Window == 64 && c.Latency > 10*time.Millisecond {
+				c.Window = 4096
+			}
+			if c.Window == 512 && c.Latency > 80*time.Millisecond {
+				c.Window = 4096
+			}
 		}
 		return c
 	}
